@@ -191,7 +191,9 @@ def run(ctx):
                        "declaration-respecting order with random layout, with and without `ignore`; every document of at most 3 "
                        "statements over a pool of 13 (quick) / 21 statements; the 30 single-fault corruption kinds and token "
                        "mutations of C16; the same with user classes in the reader slots and a held earlier read; the model "
-                       "chain text -> PEG parse -> reader model is compared with read_pil; distinct = distinct agreed results")
+                       "chain text -> PEG parse -> reader model is compared with read_pil; distinct = distinct agreed results; "
+                       "op reader_consistent: the computed consistency (hypothesis of C14_reader_builds) is True on every generated "
+                       "system of every notation, and on corrupted systems consistent (model) implies read (implementation)")
     ctx.cov["partial"] = PARTIAL
 
     def search(ds):
